@@ -15,6 +15,7 @@ from . import theories as TH
 from .api import CLASSES, CONTRACTS
 from .frontend import mangle, strip_docstring
 from .values import *  # noqa: F401,F403
+from .values import TFilePtr, VFilePtr  # noqa: E402
 from .values import (Flattener, T, TAny, TBool, TFunc, TInt, TMap, TNone, TObj, TOpt, TReal, TSeq, TStr, TStream,
                      TTuple, V, VBool, VBoundMethod, VBuiltin, VClass, VEnum, VFunc, VInt, VMap, VModule, VNone,
                      VOpaque, VOpt, VRange, VReal, VRef, VSeq, VStr, VStream, VStruct, VStructFmt, VTuple,
@@ -77,6 +78,8 @@ def root_of(loc):
 
 
 def as_int(v):
+    if isinstance(v, VOpt):
+        v = v.val
     if isinstance(v, VInt):
         return v.t
     if isinstance(v, VBool):
@@ -85,6 +88,8 @@ def as_int(v):
 
 
 def as_real(v):
+    if isinstance(v, VOpt):
+        v = v.val
     if isinstance(v, VReal):
         return v.t
     if isinstance(v, (VInt, VBool)):
@@ -274,6 +279,9 @@ class Exec:
             if isinstance(v, VOpt):
                 return v
             return VOpt(z3.BoolVal(False), self.coerce(st, v, t.t, what))
+        if isinstance(v, VOpt) and not isinstance(t, TOpt):
+            self.oblige(st, f"L{self.cur_line}.{what}.not_none", z3.Not(v.isnone))
+            v = v.val
         if isinstance(t, TInt):
             if isinstance(v, VBool):
                 v = VInt(as_int(v))
@@ -291,6 +299,15 @@ class Exec:
         if isinstance(t, TReal):
             if isinstance(v, (VInt, VBool)):
                 return VReal(as_real(v))
+            return v
+        if isinstance(t, TFilePtr):
+            if isinstance(v, VNone):
+                return self.flat.unpack(t, self.flat.pack(t, v))
+            return v
+        if isinstance(t, TFunc):
+            if isinstance(v, VBuiltin):
+                from .values import str_code
+                return VFunc(z3.IntVal(str_code("function:" + v.name)), t.kind)
             return v
         if isinstance(t, TSeq) and isinstance(v, VSeq):
             return VSeq(v.comps, v.ln, v.et, t.kind if v.kind == "list" and t.kind != "list" else v.kind)
@@ -319,6 +336,10 @@ class Exec:
             return TTuple([self.type_of(x) for x in v.items])
         if isinstance(v, VMap):
             return TMap()
+        if isinstance(v, VFilePtr):
+            return TFilePtr()
+        if isinstance(v, VOpaque):
+            return TAny()
         raise Unsupported(f"no type for {v}")
 
     def fresh_terms(self, t, name):
@@ -350,7 +371,7 @@ class Exec:
         if isinstance(t, TNone):
             return VNone()
         if isinstance(t, TAny):
-            return VOpaque(name)
+            return VOpaque("foreign" if getattr(t, "foreign", False) else name)
         v = self.flat.fresh(t, name)
         if facts:
             st.pc += self.flat.facts(t, v)
@@ -374,6 +395,8 @@ class Exec:
             return v.card > 0
         if isinstance(v, (VRef, VStruct, VStream)):
             return z3.BoolVal(True)
+        if isinstance(v, VFilePtr):
+            return z3.Not(v.isnone)
         if isinstance(v, VStr) and v.lit is not None:
             return z3.BoolVal(bool(v.lit))
         raise Unsupported(f"truth value of {v}")
@@ -522,9 +545,11 @@ class Exec:
             vals.append(v)
             tv = self.truth(st, v)
             terms.append(tv)
+            stv = z3.simplify(tv)
+            if (isinstance(node.op, ast.Or) and z3.is_true(stv)) or (isinstance(node.op, ast.And) and z3.is_false(stv)):
+                break          # constant short-circuit: later operands are never evaluated
             if i < len(node.values) - 1:
                 st.pc.append(tv if isinstance(node.op, ast.And) else z3.Not(tv))
-        extra = st.pc[mark + len(node.values) - 1:]
         del st.pc[mark:]
         # facts learned while evaluating later operands hold only under the guard: re-add guarded
         if all(isinstance(v, VBool) for v in vals):
@@ -560,6 +585,11 @@ class Exec:
 
     def e_IfExp(self, node, st):
         c = self.truth(st, self.eval(node.test, st))
+        cs = z3.simplify(c)
+        if z3.is_true(cs):
+            return self.eval(node.body, st)
+        if z3.is_false(cs):
+            return self.eval(node.orelse, st)
         st.pc.append(c)
         a = self.eval(node.body, st)
         st.pc.pop()
@@ -653,6 +683,8 @@ class Exec:
         return VBool(z3.And(*res) if len(res) > 1 else res[0])
 
     def compare(self, st, op, a, b):
+        if (isinstance(a, VOpaque) and a.desc == "foreign") or (isinstance(b, VOpaque) and b.desc == "foreign"):
+            return z3.Bool(fresh_name("foreign_cmp"))
         if isinstance(op, (ast.Is, ast.IsNot)):
             r = self.identical(st, a, b)
             return r if isinstance(op, ast.Is) else z3.Not(r)
@@ -690,6 +722,8 @@ class Exec:
                 return z3.BoolVal(True)
             if isinstance(b, VOpt):
                 return b.isnone
+            if isinstance(b, VFilePtr):
+                return b.isnone
             return z3.BoolVal(False)
         if isinstance(a, VBool) and isinstance(b, VBool):
             return a.t == b.t
@@ -698,6 +732,8 @@ class Exec:
         raise Unsupported("`is` on these operands")
 
     def equal(self, st, a, b):
+        if (isinstance(a, VOpaque) and a.desc == "foreign") or (isinstance(b, VOpaque) and b.desc == "foreign"):
+            return z3.Bool(fresh_name("foreign_eq"))
         if isinstance(a, VNone) or isinstance(b, VNone):
             return self.identical(st, a, b)
         if isinstance(a, VOpt) and isinstance(b, VOpt):
@@ -771,10 +807,8 @@ class Exec:
             g = self.repo.find_getter(cls, attr) if cls in self.repo.classes else None
             if g is not None:
                 return self.inline_getter(st, base, g)
-            if cls in self.repo.classes and self.repo.find_method(cls, name if name != attr else attr) is not None:
+            if cls in self.repo.classes and self.repo.find_method(cls, attr) is not None:
                 return VBoundMethod(base, attr)
-            if cls in self.repo.classes and self.repo.find_method(cls, name) is not None:
-                return VBoundMethod(base, name)
             k, cn = self.repo.find_class_const(cls, name) if cls in self.repo.classes else (None, None)
             if cn is not None:
                 return self.eval_const(cn, self.repo.classes[k].module)
@@ -787,9 +821,17 @@ class Exec:
             return VBoundMethod(base, attr)
         if isinstance(base, VModule):
             return VBuiltin(f"{base.name}.{attr}")
+        if isinstance(base, VFilePtr):
+            if attr == "closed":
+                return VBool(base.closed)
+            if attr == "haspend" and self.spec:
+                return VBool(base.haspend)
+            return VBoundMethod(base, attr)
         if isinstance(base, VStructFmt) and attr == "size":
             import struct
             return VInt(struct.calcsize(base.fmt))
+        if isinstance(base, VOpaque) and base.desc == "foreign":
+            return VOpaque("foreign")      # anything read off a foreign object is unconstrained
         if isinstance(base, (VSeq, VMap, VStream, VStructFmt, VStr, VOpaque, VBuiltin)):
             return VBoundMethod(base, attr)
         if isinstance(base, VOpt):
